@@ -95,10 +95,13 @@ fn clauses_match(d: &ax::TypeDeclaration, clauses: &[st::Clause], what: &str) ->
 
 struct Lin<'a> {
     prog: &'a ax::Prog,
+    /// widest environment met at a statement
+    max: std::cell::Cell<usize>,
 }
 
 impl Lin<'_> {
     fn stmt(&self, s: &ax::Statement, mut ctx: Ctx) -> Result<(), String> {
+        self.max.set(self.max.get().max(ctx.len()));
         distinct(&ctx, "environment")?;
         let types = &self.prog.types;
         match s {
@@ -276,8 +279,18 @@ impl Lin<'_> {
     }
 }
 
+/// the largest number of simultaneously live variables at a statement of a linear program
+/// (whatever the checker thinks of the program otherwise)
+pub fn max_env_linear(prog: &ax::Prog) -> usize {
+    let l = Lin { prog, max: std::cell::Cell::new(0) };
+    for d in &prog.defs {
+        let _ = l.stmt(&d.body, d.context.bindings.clone());
+    }
+    l.max.get()
+}
+
 pub fn check_linear(prog: &ax::Prog) -> Result<(), String> {
-    let l = Lin { prog };
+    let l = Lin { prog, max: std::cell::Cell::new(0) };
     for d in &prog.defs {
         l.stmt(&d.body, d.context.bindings.clone())
             .map_err(|e| format!("definition {}: {e}", d.name.name))?;
